@@ -296,6 +296,9 @@ func (r *reader) readChunk() {
 		r.log("is track chunk")
 		r.processedTracks++
 		r.expectChunk = false
+		if int(r.processedTracks) >= int(r.numTracks) {
+			r.error = fmt.Errorf("found a track chunk, but header declares %v tracks", r.numTracks)
+		}
 		// we are done, lets go to the track events
 		return
 	}
